@@ -50,6 +50,19 @@ def run(ctx):
         files.append(xzgen.mutate(rng, f)[0])
         a_, b_ = rng.choice(bounds[1:]); files.append(f[:rng.randrange(a_, b_)])          # input ends inside a later Block
         g = bytearray(f); g[rng.randrange(bounds[0][0] + 12, bounds[0][1] - 8)] ^= 0x40; files.append(bytes(g))   # error in an early Block while others decode
+    # a long-running Block while later, short ones start, finish and hand their worker on; the input ends inside the last Block
+    # (a reused worker must not carry anything over from the Block it decoded before)
+    import lzma as _lz0
+    def blk_(n_):
+        dd_ = (xzgen.gen_runs(rng, 3000) * (n_ // 3000 + 1))[:n_] if n_ > 100000 else xzgen.gen_data(rng, n_)
+        return (dd_, [{'id': 'lzma2', 'dict_size': 65536, 'lc': 3, 'lp': 0, 'pb': 2, 'mode': _lz0.MODE_FAST, 'nice_len': 32, 'mf': _lz0.MF_HC4}], {'comp_present': True, 'uncomp_present': True})
+    for shape in ([(4000, 2 << 20, 4000), (2 << 20, 3000, 3000, 5000)] if ctx.quick() else [(4000, 2 << 20, 4000), (2 << 20, 3000, 3000, 5000), (3000, 3000, 3 << 20, 3000, 9000), (1 << 20, 1 << 20, 4000), (4000, 1 << 21, 1 << 20)]):
+        spec_ = [blk_(n_) for n_ in shape]
+        parts = [xzgen.block(d_, ch_, 1, rng, **kw_) for d_, ch_, kw_ in spec_]
+        body = b''.join(p_[0] for p_ in parts); ix = xzgen.index([(p_[1], p_[2]) for p_ in parts])
+        fb = xzgen.stream_header(1) + body + ix + xzgen.stream_footer(1, len(ix))
+        last_off = 12 + sum(len(p_[0]) for p_ in parts[:-1])
+        files.append(fb[:last_off + len(parts[-1][0]) // 2]); files.append(fb[:last_off + 14]); files.append(fb)
     f2, e2, _ = xzgen.gen_valid_xz(rng, 3000); files.append(f2)        # Blocks without size fields: direct mode
     files.append(files[0] + bytes(8) + files[0])
     ref, rf = impl_dec(st, 0, LZMA_CONCATENATED, 0, 0, files)
@@ -57,14 +70,20 @@ def run(ctx):
     for fi, f in enumerate(files):
         for sd in range(1, (7 if ctx.quick() else 40)):
             seed = rng.randrange(1 << 20) * 8 + sd          # seed%4 -> threads, (seed/4)%2 -> timeout
-            mode = rng.choice([0, 2, 3, 3, 1, 7]) if len(f) < 8000 else rng.choice([0, 3, 7])
+            big_out = ref[fi] is not None and ref[fi][2] > 200000      # byte-wise modes only for small outputs
+            mode = rng.choice([0, 2, 3, 3, 1, 7]) if (len(f) < 8000 and not big_out) else rng.choice([0, 3, 7])
             ml = rng.choice([0, 0, 0, 1 << 20, 200000, 1])
             flags = LZMA_CONCATENATED | rng.choice([0, 0, 0x20])      # FAIL_FAST sometimes
             lines.append('dec 1 %d %d %d %d %s' % (flags, mode, seed, ml, f.hex())); meta.append((fi, flags, seed, mode, ml))
+        if ref[fi] is not None and ref[fi][2] > 200000 and ref[fi][0] != 1:
+            # long-running Block + truncated input: more schedules, with fewer threads than Blocks
+            for sd in range(10 if ctx.quick() else 40):
+                seed = rng.randrange(1 << 20) * 8 + rng.choice([1, 1, 2, 5, 6])
+                lines.append('dec 1 %d %d %d 0 %s' % (LZMA_CONCATENATED, rng.choice([0, 3, 7]), seed, f.hex())); meta.append((fi, LZMA_CONCATENATED, seed, 0, 0))
         # the same after the handle was used for part of this file and re-initialised without lzma_end
         for sd in range(1, (4 if ctx.quick() else 20)):
             seed = rng.randrange(1 << 20) * 8 + sd
-            mode = rng.choice([0, 2, 3, 3]) if len(f) < 8000 else rng.choice([0, 3])
+            mode = rng.choice([0, 2, 3, 3]) if (len(f) < 8000 and not big_out) else rng.choice([0, 3])
             lines.append('dec 1 %d %d %d 0 %s' % (LZMA_CONCATENATED, mode + 16, seed, f.hex())); meta.append((fi, LZMA_CONCATENATED, seed, mode + 16, 0))
     # memory limits: Blocks with growing dictionaries and a limit that a later Block exceeds; the threaded decoder (both of its
     # limits set to it) must deliver what the single-threaded decoder with the same limit delivers, and the same status
